@@ -1,16 +1,17 @@
-"""C18 -- thin module (to be enriched): geometry engine with this property's oracles."""
+"""C18 -- the bounding box encloses the domain (partial claim)"""
 from . import geo_cases
 from .. import geosim
 from .geo_common import *  # noqa
 
 ID = "C18"
 LEVEL = "exploration"
-RULE = "see DESIGN.md"
-ASSUMPTIONS = GEO_ASSUMPTIONS
+PROBES = ('bbox_checked', 'bbox_tight_judged', 'normalization_judged')
+RULE = ('geometry cases as in C01; judged: (i) every point produced by simulated sampling (that passed C01) lies in bounding_box(params) of its expression, per axis in space order, tol 1e-4, for the whole parameter batch; (ii) primitives at a single row: box equals the R-geo box (rtol 1e-5); (iii) NormalizationLayer built from the box maps the samples into [-1-1e-4, 1+1e-4]^d (parameter-free solids); LHS samplers are part of the entry mix (their proposals come from the box). non-trivial = box judged on >= 1 row')
+ASSUMPTIONS = GEO_ASSUMPTIONS + ['dependent products without set_bounding_box use a documented 10-point estimate (the library warns): not judged']
 
 
 def budget(tier):
-    return {"cases": 4000 if tier == "quick" else 100000, "wall": 600 if tier == "quick" else 3300,
+    return {"cases": 5000 if tier == "quick" else 150000, "wall": 600 if tier == "quick" else 3300,
             "shrink": 80, "det_legs": 6}
 
 
@@ -20,5 +21,5 @@ def gen_case(seed, tier="quick"):
 
 def run_case(case):
     rec = geosim.run_case(case, props=(ID,))
-    finish(rec, case, judged_key="rows_judged")
+    finish(rec, case, judged_key='bbox_checked')
     return rec
